@@ -1307,9 +1307,306 @@ Theorem transfer (Q : trace -> Prop) (o : oracles) (cfg : conn_cfg) (e : env) :
   forall s, frame_sorted (cf_max_len cfg) s = true -> ends_clean (cf_max_len cfg) s = true -> Q (run2 o cfg e s).
 Proof. intros HQ s H1 H2. rewrite (refines o cfg e s H1 H2). apply HQ. Qed.
 
+(* ------------------------------------------------------------------------------------ *)
+(* Part 6: no condition on the times - the byte-level handler only ever sees arrival times  *)
+(* through its own clock, i.e. it cannot tell a schedule from its monotone version [mono]   *)
+(* ------------------------------------------------------------------------------------ *)
+Section Clamp.
+  Variable cfg : conn_cfg.
+  Variable e : env.
+  Local Notation max := (cf_max_len cfg).
+
+  Definition clamped (s1 s2 : st2) : Prop := exists B, B <= b_now s2 /\ s1 = clamp_st B s2.
+
+  Definition crel (x y : trace * rres) : Prop :=
+    fst x = fst y /\
+    match snd x, snd y with
+    | REnd f, REnd f' => f = f'
+    | RCut s1, RCut s2 => clamped s1 s2
+    | RGot i b s1, RGot i' b' s2 => i = i' /\ b = b' /\ clamped s1 s2
+    | _, _ => False
+    end.
+
+  Lemma crel_pre tr x y :
+    crel x y -> crel (let (tr2, r) := x in (tr ++ tr2, r)) (let (tr2, r) := y in (tr ++ tr2, r)).
+  Proof. destruct x as [t1 r1], y as [t2 r2]. intros [H1 H2]. cbn [fst snd] in *. split; [rewrite H1; reflexivity | exact H2]. Qed.
+
+  Lemma tin_clamp B s : B <= b_now s -> tin_of (clamp_st B s) = tin_of s.
+  Proof.
+    intros HB. unfold tin_of. cbn [clamp_st b_in b_eof b_now].
+    destruct (b_in s) as [|[t b] r]; cbn [bclamp blast].
+    - destruct (b_eof s) as [te|]; cbn [option_map]; [f_equal; lia | reflexivity].
+    - f_equal. lia.
+  Qed.
+
+  Lemma length_bclamp : forall l B, length (bclamp B l) = length l.
+  Proof. induction l as [|[t b] r IH]; intros B; cbn [bclamp length]; [reflexivity | rewrite IH; reflexivity]. Qed.
+
+  Lemma rf_clamp : forall fuel m hz s B,
+    B <= b_now s -> crel (read_frame_f cfg e fuel m hz (clamp_st B s)) (read_frame_f cfg e fuel m hz s).
+  Proof.
+    induction fuel as [|f IH]; intros m hz s B HB; [split; reflexivity|].
+    rewrite !read_frame_f_S.
+    assert (Hh : hfirst hz (clamp_st B s) = hfirst hz s) by (unfold hfirst; rewrite (tin_clamp B s HB); reflexivity).
+    assert (Ht : tfirst (clamp_st B s) = tfirst s) by (unfold tfirst; rewrite (tin_clamp B s HB); reflexivity).
+    rewrite Hh, Ht.
+    destruct (hfirst hz s).
+    { split; [reflexivity|]. destruct hz as [h|]; cbn [snd].
+      - exists B. split; [cbn [upd b_now]; lia | reflexivity].
+      - exists B. split; [exact HB | reflexivity]. }
+    destruct (tfirst s).
+    { destruct m as [loc|].
+      - change (tick_at e loc (Z.max (b_dl (clamp_st B s)) (b_now (clamp_st B s))) (b_dl (clamp_st B s)) (b_ka (clamp_st B s)) (b_nka (clamp_st B s)))
+          with (tick_at e loc (Z.max (b_dl s) (b_now s)) (b_dl s) (b_ka s) (b_nka s)).
+        destruct (tick_at e loc (Z.max (b_dl s) (b_now s)) (b_dl s) (b_ka s) (b_nka s)) as [tr [[[dl' ka'] nka']|]]; [|split; reflexivity].
+        apply crel_pre.
+        apply (IH (Some loc) hz (upd s (Z.max (b_dl s) (b_now s)) dl' ka' (b_in s) nka' (b_rd s)) B). cbn [upd b_now]. lia.
+      - rewrite (tin_clamp B s HB). destruct (tin_of s) as [c|]; [|split; reflexivity].
+        apply (IH None hz (upd s (b_now s) (skip_ticks (b_dl s) (b_now s) c) (b_ka s) (b_in s) (b_nka s) (b_rd s)) B). exact HB. }
+    destruct (b_in s) as [|[t b] r] eqn:Hin.
+    - (* end of stream *)
+      assert (Hcl : clamp_st B s = {| b_now := b_now s; b_dl := b_dl s; b_ka := b_ka s; b_in := [];
+                                      b_eof := option_map (fun te => Z.max te B) (b_eof s);
+                                      b_nka := b_nka s; b_nnow := b_nnow s; b_rd := b_rd s |})
+        by (unfold clamp_st; rewrite Hin; reflexivity).
+      rewrite Hcl. cbn [b_in b_eof b_now b_rd b_dl b_ka b_nka]. cbv zeta.
+      assert (Ht' : match option_map (fun te => Z.max te B) (b_eof s) with Some te => Z.max te (b_now s) | None => b_now s end
+                    = match b_eof s with Some te => Z.max te (b_now s) | None => b_now s end)
+        by (destruct (b_eof s) as [te|]; cbn [option_map]; lia).
+      rewrite Ht'. set (t' := match b_eof s with Some te => Z.max te (b_now s) | None => b_now s end).
+      destruct (eof_events (b_rd s)) as [|[id body| |] evs]; try (split; reflexivity).
+      split; [reflexivity|]. cbn [snd]. split; [reflexivity|]. split; [reflexivity|].
+      exists B. split; [cbn [upd b_now]; unfold t'; destruct (b_eof s); lia|].
+      unfold clamp_st, upd. cbn [b_now b_dl b_ka b_in b_eof b_nka b_nnow b_rd bclamp blast]. reflexivity.
+    - (* a byte *)
+      assert (Hcl : clamp_st B s = {| b_now := b_now s; b_dl := b_dl s; b_ka := b_ka s; b_in := (Z.max t B, b) :: bclamp (Z.max t B) r;
+                                      b_eof := option_map (fun te => Z.max te (blast (Z.max t B) r)) (b_eof s);
+                                      b_nka := b_nka s; b_nnow := b_nnow s; b_rd := b_rd s |})
+        by (unfold clamp_st; rewrite Hin; reflexivity).
+      rewrite Hcl. cbn [b_in b_eof b_now b_rd b_dl b_ka b_nka]. cbv zeta.
+      replace (Z.max (Z.max t B) (b_now s)) with (Z.max t (b_now s)) by lia.
+      destruct (feed_byte max (b_rd s) b) as [rd' [|[id body| |] evs]]; try (split; reflexivity).
+      + apply (IH m hz (upd s (Z.max t (b_now s)) (b_dl s) (b_ka s) r (b_nka s) rd') (Z.max t B)). cbn [upd b_now]. lia.
+      + split; [reflexivity|]. cbn [snd]. split; [reflexivity|]. split; [reflexivity|].
+        exists (Z.max t B). split; [cbn [upd b_now]; lia | reflexivity].
+  Qed.
+
+  Definition kcrel (x y : trace * (list fv * st2 + st2 + unit)) : Prop :=
+    fst x = fst y /\
+    match snd x, snd y with
+    | inl (inl (vs, s1)), inl (inl (vs', s2)) => vs = vs' /\ clamped s1 s2
+    | inl (inr s1), inl (inr s2) => clamped s1 s2
+    | inr _, inr _ => True
+    | _, _ => False
+    end.
+
+  Lemma ka_clamp info loc hz : forall fuel s B,
+    B <= b_now s -> kcrel (ka_loop2 cfg e fuel info loc hz (clamp_st B s)) (ka_loop2 cfg e fuel info loc hz s).
+  Proof.
+    induction fuel as [|f IH]; intros s B HB; [split; [reflexivity | exact I]|].
+    cbn [ka_loop2]. unfold read_frame.
+    assert (Hfu : fuel_of (clamp_st B s) = fuel_of s) by (unfold fuel_of; cbn [clamp_st b_in]; rewrite length_bclamp; reflexivity).
+    rewrite Hfu. pose proof (rf_clamp (fuel_of s) (Some loc) hz s B HB) as Hr.
+    destruct (read_frame_f cfg e (fuel_of s) (Some loc) hz (clamp_st B s)) as [tr1 r1].
+    destruct (read_frame_f cfg e (fuel_of s) (Some loc) hz s) as [tr2 r2].
+    destruct Hr as [Htr Hr]. cbn [fst snd] in Htr, Hr. subst tr2.
+    destruct r1 as [id body s1|s1|fin]; destruct r2 as [id' body' s2|s2|fin']; try contradiction.
+    - destruct Hr as (<- & <- & B' & HB' & ->). cbn [clamp_st b_ka b_now].
+      destruct (conf_frame cfg info (b_ka s2) id body) as [ka''|vs|o].
+      + specialize (IH (upd s2 (b_now s2) (b_dl s2) ka'' (b_in s2) (b_nka s2) (b_rd s2)) B' HB').
+        change (clamp_st B' (upd s2 (b_now s2) (b_dl s2) ka'' (b_in s2) (b_nka s2) (b_rd s2)))
+          with (upd (clamp_st B' s2) (b_now s2) (b_dl (clamp_st B' s2)) ka'' (b_in (clamp_st B' s2)) (b_nka (clamp_st B' s2)) (b_rd (clamp_st B' s2))) in IH.
+        destruct (ka_loop2 cfg e f info loc hz (upd (clamp_st B' s2) (b_now s2) (b_dl (clamp_st B' s2)) ka'' (b_in (clamp_st B' s2))
+                    (b_nka (clamp_st B' s2)) (b_rd (clamp_st B' s2)))) as [tr3 r3].
+        destruct (ka_loop2 cfg e f info loc hz (upd s2 (b_now s2) (b_dl s2) ka'' (b_in s2) (b_nka s2) (b_rd s2))) as [tr4 r4].
+        destruct IH as [Htr IH]. cbn [fst snd] in Htr, IH. subst tr4. split; [reflexivity | exact IH].
+      + split; [reflexivity|]. cbn [snd]. split; [reflexivity|]. exists B'. split; [exact HB' | reflexivity].
+      + split; [reflexivity | exact I].
+    - split; [reflexivity | exact Hr].
+    - subst fin'. split; [reflexivity | exact I].
+  Qed.
+
+  Theorem exec2_clamp : forall p s B, B <= b_now s -> exec2 cfg e p (clamp_st B s) = exec2 cfg e p s.
+  Proof.
+    induction p as [o|k IH|loc k IH|loc c k IH|c k IH|pk vs k IH|ss k IH|w k IH|k IH]; intros s B HB.
+    - reflexivity.
+    - (* Expect *)
+      cbn [exec2]. unfold read_frame.
+      assert (Hfu : fuel_of (clamp_st B s) = fuel_of s) by (unfold fuel_of; cbn [clamp_st b_in]; rewrite length_bclamp; reflexivity).
+      rewrite Hfu. pose proof (rf_clamp (fuel_of s) None None s B HB) as Hr.
+      destruct (read_frame_f cfg e (fuel_of s) None None (clamp_st B s)) as [tr1 r1].
+      destruct (read_frame_f cfg e (fuel_of s) None None s) as [tr2 r2].
+      destruct Hr as [Htr Hr]. cbn [fst snd] in Htr, Hr. subst tr2.
+      destruct r1 as [id body s1|s1|fin]; destruct r2 as [id' body' s2|s2|fin']; try contradiction.
+      + destruct Hr as (<- & <- & B' & HB' & ->). cbn [clamp_st b_now].
+        destruct (negb (len_ok cfg id body)); [reflexivity|]. rewrite (IH id body s2 B' HB'). reflexivity.
+      + destruct Hr as (B' & HB' & ->). reflexivity.
+      + subst fin'. reflexivity.
+    - (* WaitInfo *)
+      cbn [exec2]. cbn [clamp_st b_in]. rewrite length_bclamp.
+      pose proof (ka_clamp true loc None (length (b_in s) + 3) s B HB) as Hk.
+      destruct (ka_loop2 cfg e (length (b_in s) + 3) true loc None (clamp_st B s)) as [tr1 r1].
+      destruct (ka_loop2 cfg e (length (b_in s) + 3) true loc None s) as [tr2 r2].
+      destruct Hk as [Htr Hk]. cbn [fst snd] in Htr, Hk. subst tr2.
+      destruct r1 as [[[vs1 s1]|s1]|u1]; destruct r2 as [[[vs2 s2]|s2]|u2]; try contradiction.
+      + destruct Hk as (<- & B' & HB' & ->). rewrite (IH vs1 s2 B' HB'). reflexivity.
+      + destruct Hk as (B' & HB' & ->). reflexivity.
+      + reflexivity.
+    - (* Race *)
+      cbn [exec2]. cbn [clamp_st b_in b_now]. rewrite length_bclamp. destruct (e_res e c) as [r lat].
+      pose proof (ka_clamp false loc (Some (b_now s + Z.max lat 1)) (length (b_in s) + 3) s B HB) as Hk.
+      destruct (ka_loop2 cfg e (length (b_in s) + 3) false loc (Some (b_now s + Z.max lat 1)) (clamp_st B s)) as [tr1 r1].
+      destruct (ka_loop2 cfg e (length (b_in s) + 3) false loc (Some (b_now s + Z.max lat 1)) s) as [tr2 r2].
+      destruct Hk as [Htr Hk]. cbn [fst snd] in Htr, Hk. subst tr2.
+      destruct r1 as [[[vs1 s1]|s1]|u1]; destruct r2 as [[[vs2 s2]|s2]|u2]; try contradiction.
+      + reflexivity.
+      + destruct Hk as (B' & HB' & ->). rewrite (IH r s2 B' HB'). reflexivity.
+      + reflexivity.
+    - (* Call *)
+      cbn [exec2]. cbn [clamp_st b_now]. destruct (e_res e c) as [r lat]. f_equal. f_equal.
+      apply (IH r (upd s (b_now s + Z.max lat 0) (b_dl s) (b_ka s) (b_in s) (b_nka s) (b_rd s)) B). cbn [upd b_now]. lia.
+    - cbn [exec2]. cbn [clamp_st b_now]. f_equal. apply IH. exact HB.
+    - cbn [exec2]. cbn [clamp_st b_now]. f_equal. apply IH. exact HB.
+    - cbn [exec2]. destruct w; cbn [clamp_st b_now b_nka]; f_equal; apply IH; exact HB.
+    - cbn [exec2]. cbn [clamp_st b_now b_nnow]. f_equal.
+      apply (IH (e_now e (b_nnow s)) {| b_now := b_now s; b_dl := b_dl s; b_ka := b_ka s; b_in := b_in s; b_eof := b_eof s;
+                                        b_nka := b_nka s; b_nnow := S (b_nnow s); b_rd := b_rd s |} B). exact HB.
+  Qed.
+End Clamp.
+
+Lemma bclamp_block t l : forall bs B,
+  bclamp B (map (fun b => (t, b)) bs ++ l) = map (fun b => (Z.max t B, b)) bs ++ bclamp (match bs with [] => B | _ => Z.max t B end) l.
+Proof.
+  induction bs as [|b bs IH]; intros B; [reflexivity|].
+  cbn [map app bclamp]. rewrite IH. replace (Z.max t (Z.max t B)) with (Z.max t B) by lia.
+  destruct bs; reflexivity.
+Qed.
+
+Lemma blast_block t l : forall bs B,
+  blast B (map (fun b => (t, b)) bs ++ l) = blast (match bs with [] => B | _ => Z.max t B end) l.
+Proof.
+  induction bs as [|b bs IH]; intros B; [reflexivity|].
+  cbn [map app blast]. rewrite IH. replace (Z.max t (Z.max t B)) with (Z.max t B) by lia.
+  destruct bs; reflexivity.
+Qed.
+
+Lemma bytes_mono : forall s B,
+  bytes_of_segs (mono_from B s)
+  = (bclamp B (fst (bytes_of_segs s)), option_map (fun te => Z.max te (blast B (fst (bytes_of_segs s)))) (snd (bytes_of_segs s))).
+Proof.
+  induction s as [|[t [[|b bs]|]] r IH]; intros B; cbn [mono_from bytes_of_segs].
+  - reflexivity.
+  - rewrite IH. destruct (bytes_of_segs r) as [l eo]. reflexivity.
+  - rewrite IH. destruct (bytes_of_segs r) as [l eo]. cbn [fst snd].
+    rewrite (bclamp_block t l (b :: bs) B), (blast_block t l (b :: bs) B). reflexivity.
+  - reflexivity.
+Qed.
+
+Lemma init2_mono (s : segs) : init2 (mono s) = clamp_st 0 (init2 s).
+Proof.
+  unfold init2, mono. rewrite bytes_mono. destruct (bytes_of_segs s) as [l eo]. reflexivity.
+Qed.
+
+(* the byte-level handler cannot tell a schedule from its monotone version *)
+Theorem run2_mono (o : oracles) (cfg : conn_cfg) (e : env) (s : segs) : run2 o cfg e (mono s) = run2 o cfg e s.
+Proof. unfold run2. rewrite init2_mono. apply exec2_clamp. unfold init2. destruct (bytes_of_segs s). cbn [b_now]. lia. Qed.
+
+Lemma sorted_from_mono : forall s B, sorted_from B (mono_from B s) = true.
+Proof.
+  induction s as [|[t [[|b bs]|]] r IH]; intros B; cbn [mono_from sorted_from]; try reflexivity; try apply IH;
+    (apply andb_true_intro; split; [apply Z.leb_le; lia | apply IH]).
+Qed.
+
+Lemma sorted_from_weaken s : forall a b, a <= b -> sorted_from b s = true -> sorted_from a s = true.
+Proof.
+  destruct s as [|[t x] r]; intros a b Hab; cbn [sorted_from]; [reflexivity|].
+  intros H. apply andb_prop in H as [H1 H2]. apply Z.leb_le in H1. apply andb_true_intro. split; [apply Z.leb_le; lia | exact H2].
+Qed.
+
+Lemma sorted_mono (s : segs) : sorted (mono s) = true.
+Proof.
+  unfold sorted. pose proof (sorted_from_mono s 0) as H. unfold mono.
+  destruct (mono_from 0 s) as [|[t x] r]; [reflexivity|].
+  cbn [sorted_from] in *. apply andb_prop in H as [_ H]. rewrite Z.leb_refl. exact H.
+Qed.
+
+Lemma ends_clean_mono max (s : segs) : ends_clean max (mono s) = ends_clean max s.
+Proof.
+  unfold ends_clean, mono. rewrite bytes_mono. destruct (bytes_of_segs s) as [l eo]. cbn [fst snd]. unfold closed.
+  assert (Hb : forall l B, map snd (bclamp B l) = map snd l)
+    by (induction l0 as [|[t b] r IH]; intros B; cbn [bclamp map snd]; [reflexivity | rewrite IH; reflexivity]).
+  rewrite Hb. destruct eo; reflexivity.
+Qed.
+
+(* THE REFINEMENT WITHOUT ANY CONDITION ON THE TIMES: the byte-level run is the frame-level run
+   on the reader's output for the schedule as the handler's clock sees it *)
+Theorem refines_all (o : oracles) (cfg : conn_cfg) (e : env) (s : segs) :
+  ends_clean (cf_max_len cfg) s = true ->
+  run2 o cfg e s = run1 o cfg e (frames_of (cf_max_len cfg) (mono s)).
+Proof.
+  intros H. rewrite <- run2_mono. apply refines_sorted; [apply sorted_mono | rewrite ends_clean_mono; exact H].
+Qed.
+
+(* ... and with no condition at all, up to the instant of a final hang *)
+Theorem refines_all_mod_hang (o : oracles) (cfg : conn_cfg) (e : env) (s : segs) :
+  unhang (run2 o cfg e s) = unhang (run1 o cfg e (frames_of (cf_max_len cfg) (mono s))).
+Proof.
+  rewrite <- run2_mono. apply refines_mod_hang. apply sorted_frame_sorted. apply sorted_mono.
+Qed.
+
+(* ... and exactly, whenever that frame-level run does not hang *)
+Theorem refines_all_unless_hang (o : oracles) (cfg : conn_cfg) (e : env) (s : segs) :
+  hangs (run1 o cfg e (frames_of (cf_max_len cfg) (mono s))) = false ->
+  run2 o cfg e s = run1 o cfg e (frames_of (cf_max_len cfg) (mono s)).
+Proof. intros H. apply unhang_eq_nohang; [apply refines_all_mod_hang | exact H]. Qed.
+
+(* every property of all frame-level runs holds of the byte-level runs: of all of them if it does
+   not depend on the instant of a hang, otherwise of those whose stream does not stop inside a frame *)
+Theorem transfer_all (Q : trace -> Prop) (o : oracles) (cfg : conn_cfg) (e : env) :
+  (forall ib, Q (run1 o cfg e ib)) ->
+  forall s, ends_clean (cf_max_len cfg) s = true -> Q (run2 o cfg e s).
+Proof. intros HQ s H. rewrite (refines_all o cfg e s H). apply HQ. Qed.
+
+Theorem transfer_all_mod_hang (Q : trace -> Prop) (o : oracles) (cfg : conn_cfg) (e : env) :
+  (forall ib, Q (unhang (run1 o cfg e ib))) -> forall s, Q (unhang (run2 o cfg e s)).
+Proof. intros HQ s. rewrite (refines_all_mod_hang o cfg e s). apply HQ. Qed.
+
+(* the frames of a schedule do not depend on its times *)
+Lemma in_frames_app a b : in_frames (a ++ b) = in_frames a ++ in_frames b.
+Proof.
+  induction a as [|[t ev] a IH]; [reflexivity|]. destruct ev; cbn [app in_frames]; rewrite ?IH; reflexivity.
+Qed.
+
+Lemma in_frames_ev t t' evs : in_frames (map (ev_in t) evs) = in_frames (map (ev_in t') evs).
+Proof. induction evs as [|ev evs IH]; [reflexivity|]. destruct ev; cbn [map ev_in in_frames]; rewrite ?IH; reflexivity. Qed.
+
+Lemma in_frames_mono max : forall s st B, in_frames (frames_from max st (mono_from B s)) = in_frames (frames_from max st s).
+Proof.
+  induction s as [|[t [[|b bs]|]] r IH]; intros st B; cbn [mono_from frames_from].
+  - reflexivity.
+  - cbn [feed map app]. apply IH.
+  - destruct (feed max st (b :: bs)) as [st' evs]. rewrite !in_frames_app, IH, (in_frames_ev (Z.max t B) t). reflexivity.
+  - rewrite !in_frames_app, (in_frames_ev (Z.max t B) t). reflexivity.
+Qed.
+
+(* for EVERY schedule: each frame is consumed at most once, in order, complete *)
+Theorem each_frame_once_all (o : oracles) (cfg : conn_cfg) (e : env) (s : segs) :
+  is_prefix (recvs (run2 o cfg e s)) (in_frames (frames_of (cf_max_len cfg) s)).
+Proof.
+  rewrite <- run2_mono. unfold frames_of. rewrite <- (in_frames_mono (cf_max_len cfg) s RIdle 0).
+  apply each_frame_once. apply sorted_frame_sorted. apply sorted_mono.
+Qed.
+
 Print Assumptions refines.
 Print Assumptions refines_mod_hang.
 Print Assumptions refines_unless_hang.
 Print Assumptions refines_sorted.
 Print Assumptions transfer.
 Print Assumptions each_frame_once.
+Print Assumptions refines_all.
+Print Assumptions refines_all_mod_hang.
+Print Assumptions each_frame_once_all.
+Print Assumptions refines_all_unless_hang.
+Print Assumptions run2_mono.
+Print Assumptions transfer_all.
+Print Assumptions transfer_all_mod_hang.
